@@ -11,6 +11,8 @@
 (*   cols[r]         ranks of r's collections so far (0 = SDK start)       *)
 (* Events (one ndjson line each; harness/c06_sync.cc writes them):         *)
 (*   Cfg(x, mode, temps, filters, limit, mono)  new execution              *)
+(*   AddReader(t)               a reader of temporality t is registered    *)
+(*                              in the middle of the history ("late")      *)
 (*   Create(h)                  h-th handle for the one instrument         *)
 (*   Add(h, attrs, v, hid)      attrs = caller's (key,value) sequence,     *)
 (*                              hid[vw] = id of FilteredOrderedAttributeMap *)
@@ -32,6 +34,13 @@
 (*    number of series, the own series never exceeding what was recorded   *)
 (*    for them (monotonic instruments) and the exact total are demanded.   *)
 (*                                                                         *)
+(*  - what a LATE reader is handed for measurements recorded around its    *)
+(*    registration (MeterProvider::AddMetricReader documents that it may   *)
+(*    miss in-flight data): its values and the start of its first delta    *)
+(*    interval are not examined; its later intervals must abut, cumulative *)
+(*    points start at SDK start.  The readers that were there before keep  *)
+(*    every clause (values, abutting intervals) across the registration.   *)
+(*                                                                         *)
 (* Known defects of the unchanged tree are alternative acceptance          *)
 (* conditions guarded by their name in Dev (see known_findings.d/C06.txt,  *)
 (* C08.txt); using one is reported through devUsed / "DEV" lines.          *)
@@ -50,9 +59,9 @@ D3 == "multi-view-last-wins"
 D4 == "explicit-limit-lost-after-first-interval"
 D6 == "merge-overwrites-overflow-at-default-limit"
 
-VARIABLES l, cfg, nh, ncol, cum, ctot, pend, ptot, lastPt, cols, tw, hids, devUsed, nexec
+VARIABLES l, cfg, nh, ncol, cum, ctot, pend, ptot, lastPt, cols, tw, hids, late, devUsed, nexec
 
-vars == <<l, cfg, nh, ncol, cum, ctot, pend, ptot, lastPt, cols, tw, hids, devUsed, nexec>>
+vars == <<l, cfg, nh, ncol, cum, ctot, pend, ptot, lastPt, cols, tw, hids, late, devUsed, nexec>>
 
 Ev == TraceLog[l]
 Is(e) == l <= Len(TraceLog) /\ Ev.e = e /\ l' = l + 1
@@ -73,7 +82,7 @@ Init == /\ TLCSet(1, 0)
         /\ l = 1 /\ nexec = 0 /\ devUsed = {}
         /\ cfg = [x |-> 0, mode |-> "none", temps |-> <<>>, filters |-> <<>>, limit |-> 0, mono |-> TRUE]
         /\ nh = 0 /\ ncol = 0 /\ cum = <<>> /\ ctot = <<>> /\ pend = <<>> /\ ptot = <<>>
-        /\ lastPt = <<>> /\ cols = <<>> /\ tw = <<>> /\ hids = Empty
+        /\ lastPt = <<>> /\ cols = <<>> /\ tw = <<>> /\ hids = Empty /\ late = {}
 
 TCfg == /\ Is("Cfg")
         /\ Ev.mode \in {"api", "storage"}
@@ -87,7 +96,7 @@ TCfg == /\ Is("Cfg")
            /\ ptot' = [r \in 1..nr |-> [vw \in 1..nv |-> 0]]
            /\ lastPt' = [r \in 1..nr |-> [vw \in 1..nv |-> 0]]
            /\ cols' = [r \in 1..nr |-> {0}]
-        /\ nh' = 0 /\ ncol' = 0 /\ tw' = <<>> /\ hids' = Empty
+        /\ nh' = 0 /\ ncol' = 0 /\ tw' = <<>> /\ hids' = Empty /\ late' = {}
         /\ nexec' = nexec + 1
         /\ UNCHANGED devUsed
 
@@ -95,7 +104,20 @@ TCreate == /\ Is("Create")
            /\ Ev.h = nh + 1
            /\ nh' = nh + 1
            /\ tw' = IF Twin THEN Append(tw, EmptyTwin(Len(cfg.temps), NV)) ELSE tw
-           /\ UNCHANGED <<cfg, ncol, cum, ctot, pend, ptot, lastPt, cols, hids, devUsed, nexec>>
+           /\ UNCHANGED <<cfg, ncol, cum, ctot, pend, ptot, lastPt, cols, hids, late, devUsed, nexec>>
+
+\* a reader registered after the history has begun: a fresh window, remembered as late
+TAddReader == /\ Is("AddReader")
+              /\ Ev.t \in {"delta", "cum"}
+              /\ cfg' = [cfg EXCEPT !.temps = Append(@, Ev.t)]
+              /\ pend' = Append(pend, [vw \in Views |-> Empty])
+              /\ ptot' = Append(ptot, [vw \in Views |-> 0])
+              /\ lastPt' = Append(lastPt, [vw \in Views |-> 0])
+              /\ cols' = Append(cols, {0})
+              /\ late' = late \cup {Len(cfg.temps) + 1}
+              /\ tw' = [h \in 1..Len(tw) |-> [tw[h] EXCEPT !.pend = Append(@, [vw \in Views |-> Empty]),
+                                                            !.ptot = Append(@, [vw \in Views |-> 0])]]
+              /\ UNCHANGED <<nh, ncol, cum, ctot, hids, devUsed, nexec>>
 
 (* ---- Add: every view stream of the instrument, every reader's window ---- *)
 TAdd == /\ Is("Add")
@@ -120,7 +142,7 @@ TAdd == /\ Is("Add")
            /\ \A vw, vx \in Views : A[vw] = A[vx] => Ev.hid[vw] = Ev.hid[vx]
            /\ hids' = LET new == {A[vw] : vw \in Views} \ DOMAIN hids IN
                       hids @@ [a \in new |-> Ev.hid[CHOOSE vw \in Views : A[vw] = a]]
-        /\ UNCHANGED <<cfg, nh, ncol, lastPt, cols, devUsed, nexec>>
+        /\ UNCHANGED <<cfg, nh, ncol, lastPt, cols, late, devUsed, nexec>>
 
 (* ---- the relation between the points of one MetricData and a window ---- *)
 ASet(a) == {<<a[i][1], a[i][2]>> : i \in 1..Len(a)}
@@ -162,6 +184,7 @@ StreamOf(S, vw) == LET I == {i \in 1..Len(S) : S[i].vw = vw} IN
 
 \* the sets of deviations under which the points of stream vw are acceptable for reader r
 ValueWays(r, vw, P) ==
+  IF r \in late THEN {{}} ELSE
   LET delta == cfg.temps[r] = "delta"
       R  == IF delta THEN pend[r][vw] ELSE cum[vw]
       T  == IF delta THEN ptot[r][vw] ELSE ctot[vw]
@@ -184,6 +207,7 @@ TimeWays(r, vw, s, k, vdev) ==
   IF s.pts = <<>> \/ ~CheckTime THEN {{}}
   ELSE IF s.end # k \/ s.t # cfg.temps[r] THEN {}
   ELSE IF cfg.temps[r] = "cum" THEN (IF s.start = 0 THEN {{}} ELSE {})
+  ELSE IF r \in late /\ lastPt[r][vw] = 0 THEN {{}}        \* first interval of a late reader: open
   ELSE IF s.start \in cols[r] /\ s.start >= lastPt[r][vw] THEN {{}}
   ELSE IF Twin /\ nh >= 2 /\ s.start \in cols[r] THEN {{D2}}   \* the replacing storage starts afresh
   ELSE IF D1 \in Dev /\ Len(cfg.temps) = 1 /\ s.start = 0 THEN {{D1}}
@@ -215,9 +239,9 @@ TCollect ==
                 THEN [tw EXCEPT ![nh].pend[r] = [vw \in Views |-> Empty], ![nh].ptot[r] = [vw \in Views |-> 0]]
                 ELSE tw
      /\ ncol' = k
-  /\ UNCHANGED <<cfg, nh, cum, ctot, hids, nexec>>
+  /\ UNCHANGED <<cfg, nh, cum, ctot, hids, late, nexec>>
 
-Next == TCfg \/ TCreate \/ TAdd \/ TCollect
+Next == TCfg \/ TCreate \/ TAddReader \/ TAdd \/ TCollect
 
 Spec == Init /\ [][Next]_vars
 
